@@ -95,8 +95,7 @@ def stepLine (s : St) (line : String) : St × String :=
       let n := s.outs.length
       let s' := step s ev
       -- the commands emitted by this call, oldest first
-      let new := (s'.outs.take (s'.outs.length - n)).reverse
-      (s', render new)
+      (s', render (s'.outs.drop n))
 
 -- ------------------------------------------------------------------------------------------------
 -- reachable abstract states (debug/certificate tool):  mv_c03 reach
